@@ -620,7 +620,22 @@ pub fn mutate(rng: &mut Rng, gp: &GenProblem) -> (String, &'static str) {
         }
         _ => {
             // odd numbers
-            let l = *rng.pick(&["p0.x = inf", "p0.x = nan", "p0.x = 1e", "p0.x = 1e400", "p0.x = -.5e-3", "p0.x = 1.e2", "p0.x = +infinity", "p0.x = 0x10", "p0.x = 1_000"]);
+            let l: String = if rng.chance(1, 4) {
+                // extreme exponents and long digit strings: the exponent digits saturate in the standard
+                // library's parser, a long fraction shifts the exponent back, a long mantissa is truncated
+                match rng.below(8) {
+                    0 => format!("p0.x = 0.{}1e{}", "0".repeat(70), 71),
+                    1 => format!("p0.x = 0.{}1e100002", "0".repeat(100001)),
+                    2 => format!("p0.x = 0.{}1e700000", "0".repeat(69999)),
+                    3 => format!("p0.x = 1{}e-300", "0".repeat(300)),
+                    4 => "p0.x = 1e70000000000000000000000".to_string(),
+                    5 => "p0.x = 1e-70000000000000000000000".to_string(),
+                    6 => format!("p0.x = {}.5", "123456789".repeat(rng.range(3, 100))),
+                    _ => format!("p0.x = 0.{}e{}", "987654321".repeat(rng.range(3, 100)), rng.range(0, 40)),
+                }
+            } else {
+                (*rng.pick(&["p0.x = inf", "p0.x = nan", "p0.x = 1e", "p0.x = 1e400", "p0.x = -.5e-3", "p0.x = 1.e2", "p0.x = +infinity", "p0.x = 0x10", "p0.x = 1_000", "p0.x = 4.9e-324", "p0.x = 2.4703282292062327e-324", "p0.x = 1.7976931348623158e308", "p0.x = 1.7976931348623159e308", "p0.x = 9007199254740993", "p0.x = 0.1e1", "p0.x = 1E+2", "p0.x = -0.0"])).to_string()
+            };
             (base.replacen("# constraints\n", &format!("# constraints\npoint p0\n{l}\n"), 1) + "\np0 roughly (0, 0)", "odd-number")
         }
     }
